@@ -20,6 +20,7 @@ RULE = ("exhaustive enumeration of (key, interval in -48..48), (key, a, b in -13
         "distance in [-5,6], congruent to position difference, from_distance lands on target; one step = a fifth. "
         "Non-trivial = every case except the identity interval on C major; distinct by case digest.")
 RULE = RULE + " Rounds e-g: wide and negative integers before ordinary pitches, table integrity after ordinary library use (key guess, transposition, MIDI key loading, get_info, equals / merge of differently keyed sequences)."
+RULE = RULE + " Round h: intervals beyond the float range."
 ASSUMPTIONS = ["KeyNoteMapping's first element of each scale list is the tonic (checked: it must span a major scale)",
                "enharmonic spelling of the returned key is free (compared as tonic pitch class + pitch-class set)"]
 TIERS = {"quick": dict(shards=2, examples=300, enum_shards=6),
@@ -54,6 +55,8 @@ def enumerate_cases(params):
 
 def strategy(params, shard, nshards):
     big = st.one_of(st.integers(-10 ** 6, 10 ** 6), st.integers(-10 ** 30, 10 ** 30),
+                    # beyond the range of a float (an exact integer is still "any integer")
+                    st.integers(-50, 50).map(lambda j: 2 ** 1030 * (1 if j >= 0 else -1) + j), st.integers(-10 ** 400, 10 ** 400),
                     st.integers(-5000, 5000).map(lambda j: 12 * j))
     return st.one_of(
         st.builds(lambda k, n: {"kind": "transpose", "key": k, "n": n}, st.sampled_from(KEYS), big),
